@@ -148,8 +148,105 @@ void cases(const std::string& owner, mc::Report& rep, bool small_only)
         }
 }
 
+// ramp: EVERY range length n from 0 to 1100 (300 when small_only) - construction from a range of n elements at capacity
+// n, n + 1 and n + 100, copy construction, copy assignment, range append into an empty and a half-filled vector, and the
+// range that is one element too long.  A complete range of lengths, so a batch / chunk / growth threshold at 10, 100, 1000 or
+// anywhere between lies inside it.  Reference: std::vector.
+inline void ramp(const std::string& owner, mc::Report& rep, bool small_only)
+{
+    using P = Pod<8>;
+    using FV = nitro::lang::fixed_vector<P>;
+    std::vector<P> src;
+    auto same = [](const FV& v, const std::vector<P>& ref, std::string& detail) {
+        if (v.size() != ref.size())
+        {
+            detail = "size " + std::to_string(v.size()) + " expected " + std::to_string(ref.size());
+            return false;
+        }
+        for (size_t i = 0; i < ref.size(); i++)
+            if (!(v[i] == ref[i]))
+            {
+                detail = "index " + std::to_string(i) + " holds " + std::to_string(v[i].id) + " expected " + std::to_string(ref[i].id);
+                return false;
+            }
+        return true;
+    };
+    for (size_t n = 0; n <= (small_only ? 300u : 1100u); n++)
+    {
+        if (n)
+            src.push_back(mk<8>(1000 + static_cast<long>(n)));
+        for (size_t cap : { n, n + 1, n + 100 })
+        {
+            std::string clause, detail, step;
+            try
+            {
+                step = "fixed_vector(capacity, range)";
+                FV v(cap, src);
+                if (!same(v, src, detail))
+                    clause = "contents-differ-from-reference";
+                step = "copy construction";
+                FV c(v);
+                if (clause.empty() && (!same(c, src, detail) || c.capacity() != cap))
+                    clause = "contents-differ-from-reference";
+                step = "copy assignment";
+                FV a(1);
+                a = v;
+                if (clause.empty() && !same(a, src, detail))
+                    clause = "contents-differ-from-reference";
+                step = "push_back(first, last) into an empty vector";
+                FV r(cap);
+                r.push_back(src.begin(), src.end());
+                if (clause.empty() && !same(r, src, detail))
+                    clause = "contents-differ-from-reference";
+                step = "push_back(first, last) behind 50 elements";
+                FV h(cap + 50);
+                std::vector<P> href;
+                for (long i = 0; i < 50; i++)
+                {
+                    h.emplace_back(mk<8>(i));
+                    href.push_back(mk<8>(i));
+                }
+                h.push_back(src.begin(), src.end());
+                href.insert(href.end(), src.begin(), src.end());
+                if (clause.empty() && !same(h, href, detail))
+                    clause = "contents-differ-from-reference";
+            }
+            catch (std::exception& e)
+            {
+                clause = "operation-threw-although-it-fits";
+                detail = e.what();
+            }
+            if (clause.empty() && n > 0 && cap == n)
+            {
+                step = "fixed_vector(n - 1, range of n)";
+                bool threw = false;
+                try
+                {
+                    FV small(n - 1, src);
+                }
+                catch (std::exception&)
+                {
+                    threw = true;
+                }
+                if (!threw)
+                    clause = "unsatisfiable-operation-did-not-throw";
+            }
+            rep.count("executions");
+            rep.count("pod_ramp_cases");
+            if (!clause.empty())
+            {
+                if (clause == "contents-differ-from-reference" && owner == "C06")
+                    clause = "element-exposed-that-the-caller-did-not-put-there";
+                rep.violation(clause, owner + ":" + clause + ":ramp", mc::J().s("ramp_length", std::to_string(n)).s("capacity", std::to_string(cap)).str(),
+                              "range of " + std::to_string(n) + " trivially copyable elements, capacity " + std::to_string(cap) + ", " + step + ": " + detail, 0);
+            }
+        }
+    }
+}
+
 inline void all(const std::string& owner, mc::Report& rep, bool small_only)
 {
+    ramp(owner, rep, small_only);
     cases<8>(owner, rep, small_only);
     cases<128>(owner, rep, small_only);
     cases<304>(owner, rep, small_only);
